@@ -264,15 +264,16 @@ ENGINE_MODELS = ["goroutines/channels/select on the engine's scheduler", "contex
                  "errgroup executed from its real source", "time.Sleep/time.After on the virtual clock", "model TracerouteDriver (harness/common/engine.go)"]
 
 par_q = [E("Verif_Engine_parallel", ["returned"], W=1, replies=1), E("Verif_Engine_parallel", ["returned"], W=2, replies=1),
-         E("Verif_Engine_parallel", ["returned"], W=2, replies=2), E("Verif_Engine_parallel", ["returned"], W=2, replies=1, min=254)]
-par_t = par_q + [E("Verif_Engine_parallel", ["returned"], 7200, W=2, replies=3, timeoutPolls=3, max_preempt=2), E("Verif_Engine_parallel", ["returned"], 7200, W=3, replies=2, max_preempt=2),
+         E("Verif_Engine_parallel", ["returned"], W=2, replies=2, waitSet=1), E("Verif_Engine_parallel", ["returned"], W=2, replies=1, min=254, max_preempt=3)]
+par_t = par_q + [E("Verif_Engine_parallel", ["returned"], 7200, W=2, replies=2, max_preempt=2), E("Verif_Engine_parallel", ["returned"], 7200, W=3, replies=3, waitSet=1, max_preempt=2),
+                 E("Verif_Engine_parallel", ["returned"], 7200, W=2, replies=3, timeoutPolls=3, max_preempt=2), E("Verif_Engine_parallel", ["returned"], 7200, W=3, replies=2, max_preempt=2),
                  E("Verif_Engine_parallel", ["returned"], 7200, W=3, replies=3, max_preempt=1)]
 ser_q = [E("Verif_Engine_serial", ["returned"], W=2, replies=2), E("Verif_Engine_serial", ["returned"], W=3, replies=2), E("Verif_Engine_serial", ["returned"], W=2, replies=2, min=254)]
 ser_t = ser_q + [E("Verif_Engine_serial", ["returned"], 3600, W=3, replies=4, timeoutPolls=3), E("Verif_Engine_serial", ["returned"], 3600, W=4, replies=3)]
-can_q = [E("Verif_Engine_cancel", ["cancelled-before-return"], W=2, parallel=1), E("Verif_Engine_cancel", ["cancelled-before-return"], W=2, parallel=0),
+can_q = [E("Verif_Engine_cancel", ["cancelled-before-return"], W=2, parallel=1, max_preempt=2), E("Verif_Engine_cancel", ["cancelled-before-return"], W=2, parallel=0),
          E("Verif_Engine_cancel", ["cancelled-before-return"], W=2, parallel=0, replies=1)]
 can_t = can_q + [E("Verif_Engine_cancel", ["cancelled-before-return"], 3600, W=2, parallel=1, replies=1, max_preempt=1), E("Verif_Engine_cancel", ["cancelled-before-return"], 3600, W=3, parallel=1)]
-fail_q = [E("Verif_Engine_fail", ["fault-hit"], W=2, parallel=1), E("Verif_Engine_fail", ["fault-hit"], W=2, parallel=0)]
+fail_q = [E("Verif_Engine_fail", ["fault-hit"], W=2, parallel=1, max_preempt=2), E("Verif_Engine_fail", ["fault-hit"], W=2, parallel=0)]
 fail_t = fail_q + [E("Verif_Engine_fail", ["fault-hit"], 3600, W=3, parallel=1, replies=2, max_preempt=2), E("Verif_Engine_fail", ["fault-hit"], W=3, parallel=0, replies=2)]
 
 spec("C07", ["C07/"], par_q, par_t, ENGINE_BOUNDS, ENGINE_OUTSIDE + ["'randomly beyond the bound' (a different technique; not substituted)"], models=ENGINE_MODELS)
@@ -289,6 +290,37 @@ SPECS["C06"]["tiers"]["thorough"]["jobs"] += par_t + ser_t
 SPECS["C06"]["bounds"].update(ENGINE_BOUNDS)
 SPECS["C06"]["outside_bounds"] = ["IP options on probes (none are generated)", "the UDP rule that a computed zero checksum is sent as 0xffff", "reported endpoints of the entry points (part (d)): not built yet"] + ENGINE_OUTSIDE
 SPECS["C06"]["models_used"] = MODELS + ENGINE_MODELS
+
+
+# ---- C15 multi-query, C18 enrichment/caching/public IP ----
+def M(pkg, harness, reach, timeout=900, **kw):
+    return J(pkg, harness, reach, timeout=timeout, no_replay=True, **kw)
+CONC_BOUNDS = {"schedules": "every interleaving at scheduling points up to max_preempt preemptive context switches (job parameter; -1 = unbounded), sleep-set partial-order reduction over synchronisation objects"}
+spec("C15", ["C15/", "C10/"], [M("traceroute", "Verif_C15_multi", ["all-succeeded", "some-failed"], queries=1, e2e=1, max_preempt=3),
+                       M("traceroute", "Verif_C15_multi", ["all-succeeded", "some-failed"], queries=2, e2e=1, publicip=0, max_preempt=2),
+                       M("traceroute", "Verif_C15_multi", ["all-succeeded", "some-failed"], queries=1, e2e=2, publicip=0, max_preempt=2)],
+     [M("traceroute", "Verif_C15_multi", ["all-succeeded", "some-failed"], 7200, queries=1, e2e=1, max_preempt=5),
+      M("traceroute", "Verif_C15_multi", ["all-succeeded", "some-failed"], 7200, queries=2, e2e=2, max_preempt=2),
+      M("traceroute", "Verif_C15_multi", ["all-succeeded", "some-failed"], 7200, queries=3, e2e=1, publicip=0, max_preempt=2),
+      M("traceroute", "Verif_C15_multi", ["all-succeeded", "some-failed"], 7200, queries=2, e2e=1, max_preempt=3)],
+     dict(CONC_BOUNDS, counts="TracerouteQueries <= 2/3, E2eQueries <= 2; every failure subset; public-IP fetcher succeeding or failing",
+          model="runTracerouteOnceFn (package variable) = model run: success with a distinct id / failure with a distinct error, per call symbolic"),
+     ["larger counts (the code is uniform in the count; not proved)", "reverse DNS and redaction ordering inside RunTraceroute"], models=ENGINE_MODELS)
+spec("C18", ["C18/", "C08/dns", "C08/http", "C08/publicip", "C10/"],
+     [J("cache", "Verif_C18_cache", ["hit", "miss", "end"], ops=3),
+      M("result", "Verif_C18_rdns", ["end"], hops=1, max_preempt=2), M("result", "Verif_C18_rdns", ["end"], hops=2, max_preempt=1),
+      M("publicip", "Verif_C18_publicip", ["found", "not-found"], providers=1, maxCalls=2),
+      M("publicip", "Verif_C18_publicip", ["found", "not-found"], providers=3, maxCalls=3, maxKind=3)],
+     [J("cache", "Verif_C18_cache", ["hit", "miss", "end"], ops=4),
+      M("result", "Verif_C18_rdns", ["end"], 7200, hops=1, max_preempt=4), M("result", "Verif_C18_rdns", ["end"], 7200, hops=2, max_preempt=2),
+      M("publicip", "Verif_C18_publicip", ["found", "not-found"], 7200, providers=2, maxCalls=3, backoffSet=1),
+      M("publicip", "Verif_C18_publicip", ["found", "not-found"], providers=4, maxCalls=4, maxKind=3)],
+     dict(CONC_BOUNDS, cache="3-4 GetWithExpiration operations on one key, symbolic gaps, callback success/failure symbolic, over the real go-cache",
+          rdns="1-2 hops + destination, symbolic addresses (equal ones included), resolver answer per address symbolic (names/empty/error)",
+          publicip="1-4 providers, <= 2-4 HTTP calls, response per call: valid / invalid body / 4xx / 5xx with address / transport error; latency 0, 1 s, 2.5 s; back-off any duration <= 4.5 s"),
+     ["real resolver and HTTP stack (contract models only)", "go-cache's janitor goroutine", "net.IP.String modelled as an injective function of the canonical address when the address is symbolic"],
+     ["model resolver assigned to reversedns.LookupAddrFn", "(*http.Client).Do redirected to a scripted model client: returns no later than the deadline it was handed",
+      "backoff.ExponentialBackOff.NextBackOff = any duration in [0, 4.5 s]", "time.NewTimer/Reset/Stop on the virtual clock"], models=ENGINE_MODELS)
 
 for prop, s in SPECS.items():
     with open(os.path.join(HERE, prop + ".json"), "w") as f:
